@@ -425,6 +425,65 @@ def work_sync_seq(chunk):
     return res
 
 
+def run_sync_concurrent(cfg, n_first, late_at):
+    """n_first sync sessions (one thread each) call get() against a silent agent at t = 0, one more at t = late_at * T.
+    Returns the elapsed time and outcome of every call. A call's time-out is its own: it does not wait for other sessions."""
+    drivers.subject()
+    from gufo.snmp.sync_client import SnmpSession
+
+    agent = drivers.new_agent_socket(blocking=True)  # never read, never answers
+    port = agent.getsockname()[1]
+    sessions = [SnmpSession(**drivers.session_kwargs(cfg, port, T_SYNC)) for _ in range(n_first + 1)]
+    results = [None] * (n_first + 1)
+    go = threading.Event()
+
+    def one(i, delay):
+        go.wait()
+        if delay:
+            time.sleep(delay)
+        t0 = time.monotonic()
+        o = drivers.call(sessions[i].get, rb.oid_str(SYS))
+        results[i] = (o, time.monotonic() - t0)
+
+    ths = [threading.Thread(target=one, args=(i, 0.0 if i < n_first else late_at * T_SYNC), daemon=True) for i in range(n_first + 1)]
+    for t in ths:
+        t.start()
+    go.set()
+    for t in ths:
+        t.join(T_SYNC * 12)
+    agent.close()
+    return results
+
+
+def work_sync_concurrent(chunk):
+    res = common.Result()
+    for case in chunk:
+        cfg = Cfg.from_desc(case["cfg"])
+
+        def problem():
+            outs = run_sync_concurrent(cfg, case["n"], case["late_at"])
+            for i, r in enumerate(outs):
+                if r is None:
+                    return "fails-to-return", "session %d of %d did not return within 12 T" % (i + 1, len(outs))
+                v = judge_sync([], None, r[0], r[1])
+                if v:
+                    return v[0], "session %d of %d (started at %s): %s" % (i + 1, len(outs), "0" if i < case["n"] else "%.1f T" % case["late_at"], v[1])
+            return None
+
+        v = problem()
+        res.count("schedules")
+        res.count("sync_concurrent")
+        res.distinct()
+        res.outcome("sync-concurrent")
+        if v:
+            again = [problem() for _ in range(2)]
+            if all(a and a[0] == v[0] for a in again):
+                res.violation("sync-concurrent/%s/n=%d/%s" % (cfg.version, case["n"], v[0]), "%d sessions waiting on a silent agent, one more starting at %.1f T: %s (confirmed on re-runs)" % (case["n"], case["late_at"], v[1]), case)
+            else:
+                res.count("sync_unconfirmed")
+    return res
+
+
 def run_async_reuse(cfg, drops):
     """Real asyncio loop: session A times out (`drops` requests unanswered) and is dropped; a new session B in the same
     loop (it will usually get A's descriptor number) must have its reply delivered."""
@@ -521,6 +580,10 @@ def work_no_blocking(chunk):
 
 
 def replay(case):
+    if case.get("driver") == "sync-concurrent":
+        common.prepare_stage()
+        r = work_sync_concurrent([case])
+        return {"problems": [v[1] for v in r["violations"]], "holds": not r["violations"]}
     if case.get("driver") == "async-reuse":
         common.prepare_stage()
         return {"result": repr(run_async_reuse(Cfg.from_desc(case["cfg"]), case["drops"]))}
@@ -614,6 +677,10 @@ def run(tier):
     for c in (Cfg("v3", auth=1, discover=True), Cfg("v3", auth=2, priv=2, discover=True), Cfg("v3", auth=1)):
         qcases.append({"driver": "sync-seq", "cfg": c.describe(), "calls": [[[], None], [[], None]], "op": "enter"})
     common.run_cases(rec, work_sync_seq, qcases, chunk=2, nproc=8)
+    # many sessions of one process waiting at the same time (threads): each call has its own time-out - buffers, locks or
+    # counters shared by the sessions must not make one wait for another (the receive path holds a pooled buffer while it waits)
+    ccases = [{"driver": "sync-concurrent", "cfg": c.describe(), "n": n, "late_at": 0.3} for c in (Cfg("v2c"), Cfg("v3", auth=1)) for n in ((1, 16, 40) if not thorough else (1, 2, 8, 16, 17, 40, 100))]
+    common.run_cases(rec, work_sync_concurrent, ccases, chunk=1, nproc=2)
     # nothing in the async client may block the event loop: while one session is being rate-limited, the timers of all
     # others must keep running (a blocking sleep is invisible to virtual time, so it is observed directly)
     common.run_cases(rec, work_no_blocking, [{"cfg": c.describe()} for c in (Cfg("v1"), Cfg("v2c"), Cfg("v3", auth=2, priv=2, discover=True))], chunk=1)
